@@ -10,6 +10,8 @@ echo "[setup] building harness (guard off)"
 ( cd harness && RUSTFLAGS="" CARGO_TARGET_DIR="$PWD/../target/off" cargo build --release --offline --bin hpke-mc 2>&1 | tail -2 )
 echo "[setup] building harness (guard on, release-user profile)"
 ( cd harness && RUSTFLAGS="--cfg hpke_verif" CARGO_TARGET_DIR="$PWD/../target/on" cargo build --profile relprod --offline --bin hpke-mc 2>&1 | tail -1 )
+echo "[setup] building harness (guard off, release-user profile: what a downstream release build compiles)"
+( cd harness && RUSTFLAGS="" CARGO_TARGET_DIR="$PWD/../target/off" cargo build --profile relprod --offline --bin hpke-mc 2>&1 | tail -1 )
 echo "[setup] building C18 binaries"
 ( cd harness && RUSTFLAGS="--cfg hpke_verif" CARGO_TARGET_DIR="$PWD/../target/on" cargo build --release --offline --bins 2>&1 | tail -1 )
 echo "[setup] warming the C17 target directories"
